@@ -418,6 +418,27 @@ fn run_case(line: &str) -> Result<String, String> {
             ps.sort();
             Ok(format!("PARAMS( {} )", ps.iter().map(|x| hex(x.as_bytes())).collect::<Vec<_>>().join(" ")))
         }
+        "tosql" => {
+            // tosql <src>: CEL -> SQL text through the to_sql extension
+            use rscel_to_sql::IntoSqlBuilder;
+            let src = unhex_str(t.next()?)?;
+            let prog = match rscel::Program::from_source(&src) {
+                Ok(p) => p,
+                Err(e) => return Ok(format!("CERR {}", print_err(&e))),
+            };
+            let ast = match prog.ast() {
+                Some(a) => a,
+                None => return Ok("NOAST".to_string()),
+            };
+            let b = match ast.into_sql_builder() {
+                Ok(b) => b,
+                Err(_) => return Ok("NOSQL".to_string()),
+            };
+            Ok(match b.to_sql() {
+                Ok(s) => format!("SQL {}", hex(s.as_bytes())),
+                Err(_) => "NOSQL".to_string(),
+            })
+        }
         "jsonbind" => {
             // jsonbind <src> B( bound through a JSON object ) B( bound directly )
             let src = unhex_str(t.next()?)?;
